@@ -501,3 +501,13 @@ def c13p(ctx):
              for x in lv.walk()) and not any(is_call(x, 'self.load_tile') for x in lv.walk())
     ctx.check(ok, 'MBTilesLevelCache.load_tile_metadata:asks-the-level-database', 'the per-level cache hands the question to load_tile_metadata of its level cache', lv,
               fail='MBTilesLevelCache.load_tile_metadata is load_tile: a no-op for a tile that already has its image')
+
+
+@rule('C13.q', floor=1)
+def c13q(ctx):
+    """shared rule C20.i, re-evaluated for this property: a stale tile counts as refreshed only when a storable answer replaced it --
+    the wrapper a cache used as source puts around the answer of its own tile manager inherits that answer's `cacheable` flag;
+    with the default (cacheable) an error image of the inner cache (`on_error ... cache: False`) overwrites the stale tile of the
+    outer cache with a fresh timestamp and is served until the next expiry"""
+    from ..engine import share
+    share(ctx, 'C20', {'C20.i'})
